@@ -1,6 +1,7 @@
 #!/bin/bash
 # usage: tools/seed_run.sh <seed-id> <prop> [<prop> ...]   -- apply a stored seeded change to /repo, run checks, restore /repo
 sid=$1; shift
+export PYVC_SCRATCH_EVIDENCE=1     # /repo is patched while these checks run: their evidence must not replace the committed one
 cd /repo
 if ! git diff --quiet; then echo "/repo is dirty, refusing"; exit 9; fi
 git apply /verif/seeded/$sid/patch.diff || { echo "patch does not apply"; exit 9; }
